@@ -434,10 +434,10 @@ func runPair(id int, rng *rand.Rand, chaos time.Duration) [][]vt.M {
 	}
 	mark(la)
 	mark(lb)
-	// The link is lossless from here on. Wait (up to 30 s; the protocol needs about 2 s because a Down
+	// The link is lossless from here on. Wait (up to 20 s; the protocol needs about 2 s because a Down
 	// session sends once per second) until the hooks of both sessions have reported Up.
 	up := func(l *sessLog) bool { l.mu.Lock(); defer l.mu.Unlock(); return l.lastLocal == 3 }
-	deadline := time.Now().Add(30 * time.Second)
+	deadline := time.Now().Add(20 * time.Second)
 	for time.Now().Before(deadline) && !(up(la) && up(lb)) {
 		time.Sleep(5 * time.Millisecond)
 	}
